@@ -8,6 +8,7 @@ import (
 	"runtime/debug"
 	"sort"
 
+	"verif/sa/internal/load"
 	"verif/sa/internal/oblig"
 	"verif/sa/internal/props"
 	"verif/sa/internal/selftest"
@@ -55,6 +56,31 @@ func main() {
 		if bad > 0 {
 			os.Exit(1)
 		}
+	case "checkall":
+		// dev-time: several checks over one tree in one process, the program loaded once; prints one
+		// "== <id> exit=<code>" line per check after that check's own output
+		load.Memo = true
+		ids := os.Args[2:]
+		if len(ids) == 0 {
+			for id := range props.Checks {
+				ids = append(ids, id)
+			}
+			sort.Strings(ids)
+		}
+		worst := 0
+		for _, id := range ids {
+			c, ok := props.Checks[id]
+			if !ok {
+				fmt.Fprintf(os.Stderr, "unknown property %s\n", id)
+				os.Exit(2)
+			}
+			code := run(id, "quick", c)
+			fmt.Printf("== %s exit=%d\n", id, code)
+			if code > worst {
+				worst = code
+			}
+		}
+		os.Exit(worst)
 	case "check":
 		if len(os.Args) < 3 {
 			usage()
